@@ -7,6 +7,7 @@
 //   - runs every function on argument tuples with quasigo.Call (panics and time-outs recorded, native calls traced),
 //   - emits the same functions as ordinary Go into one `package main` batch, builds and runs it with the Go
 //     toolchain and records what the real compiler's code returns.
+//
 // Output: one JSON object per line on stdout.
 package main
 
@@ -18,6 +19,7 @@ import (
 	"flag"
 	"fmt"
 	"go/ast"
+	"go/constant"
 	"go/importer"
 	"go/parser"
 	"go/token"
@@ -50,10 +52,10 @@ type callObs struct {
 	F       int    `json:"f"`
 	ArgsGo  string `json:"args_go"`
 	ArgsCoq string `json:"args_coq"`
-	Res     string `json:"res"`    // quasigo: i:<n> | s:<hex> | b:<bool> | v | P:<msg> | T
-	Oracle  string `json:"oracle"` // go toolchain, same encoding
-	Trace   string `json:"trace"`  // Coq list of (native id, args, results) observed during the quasigo run
-	VL0     int    `json:"vl0"`    // variadicLen left in the EvalEnv by earlier evaluations (set before the call)
+	Res     string `json:"res"`             // quasigo: i:<n> | s:<hex> | b:<bool> | v | P:<msg> | T
+	Oracle  string `json:"oracle"`          // go toolchain, same encoding
+	Trace   string `json:"trace"`           // Coq list of (native id, args, results) observed during the quasigo run
+	VL0     int    `json:"vl0"`             // variadicLen left in the EvalEnv by earlier evaluations (set before the call)
 	Where   string `json:"where,omitempty"` // histories: which unit's function, called after which unit was compiled
 }
 
@@ -210,7 +212,99 @@ func argsFor(r *rand.Rand, f *gfunc, t int) argTuple {
 	if f.tuples != nil {
 		return mkArgVals(f.tuples[t%len(f.tuples)])
 	}
+	if f.smallInts {
+		var vals []argval
+		for _, p := range f.params {
+			switch p.ty {
+			case gInt:
+				v := int64(r.Intn(14) - 3)
+				if len(f.dictI) > 0 && r.Intn(2) == 0 {
+					if d := f.dictI[r.Intn(len(f.dictI))]; d > -1000 && d < 1000 {
+						v = d
+					}
+				}
+				vals = append(vals, aI(v))
+			case gStr:
+				vals = append(vals, aS(strPool[r.Intn(len(strPool))]))
+			default:
+				vals = append(vals, aB(r.Intn(2) == 0))
+			}
+		}
+		return mkArgVals(vals)
+	}
+	if len(f.dictS)+len(f.dictI) > 0 && r.Intn(2) == 0 {
+		var vals []argval
+		for _, p := range f.params {
+			switch {
+			case p.ty == gInt && len(f.dictI) > 0 && r.Intn(4) != 0:
+				vals = append(vals, aI(f.dictI[r.Intn(len(f.dictI))]))
+			case p.ty == gInt:
+				vals = append(vals, aI(int64(r.Intn(14)-3)))
+			case p.ty == gStr && len(f.dictS) > 0 && r.Intn(4) != 0:
+				vals = append(vals, aS(f.dictS[r.Intn(len(f.dictS))]))
+			case p.ty == gStr:
+				vals = append(vals, aS(strPool[r.Intn(len(strPool))]))
+			default:
+				vals = append(vals, aB(r.Intn(2) == 0))
+			}
+		}
+		return mkArgVals(vals)
+	}
 	return mkArgs(r, f.params)
+}
+
+// setDict fills the argument dictionaries of the functions of a type-checked program: every string / int constant
+// go/types recorded for an expression of the file (literals, named constants, folded constant expressions) and the
+// values next to it.
+func setDict(chk *checked, funcs []*gfunc) {
+	seenS, seenI := map[string]bool{}, map[int64]bool{}
+	var ds []string
+	var di []int64
+	addS := func(s string) {
+		// (no `*`: as a format it would take a width - a length of the result - from whatever int comes next)
+		if !seenS[s] && len(s) < 400 && !strings.Contains(s, "*") {
+			seenS[s] = true
+			ds = append(ds, s)
+		}
+	}
+	addI := func(i int64) {
+		if !seenI[i] {
+			seenI[i] = true
+			di = append(di, i)
+		}
+	}
+	var exprs []ast.Expr
+	for e, tv := range chk.info.Types {
+		if tv.Value != nil {
+			exprs = append(exprs, e)
+		}
+	}
+	sort.Slice(exprs, func(i, j int) bool {
+		if exprs[i].Pos() != exprs[j].Pos() {
+			return exprs[i].Pos() < exprs[j].Pos()
+		}
+		return exprs[i].End() < exprs[j].End()
+	})
+	for _, e := range exprs {
+		switch v := chk.info.Types[e].Value; v.Kind() {
+		case constant.String:
+			s := constant.StringVal(v)
+			addS(s)
+			for _, n := range nearStrings(s) {
+				addS(n)
+			}
+		case constant.Int:
+			if i, ok := constant.Int64Val(v); ok {
+				addI(i)
+				addI(i - 1)
+				addI(i + 1)
+				addI(-i)
+			}
+		}
+	}
+	for _, f := range funcs {
+		f.dictS, f.dictI = ds, di
+	}
 }
 
 func mkArgs(r *rand.Rand, params []gvar) argTuple {
@@ -442,6 +536,13 @@ func main() {
 		if fromCorpus {
 			funcs = funcsOf(chk)
 		}
+		setDict(chk, funcs)
+		if fromCorpus {
+			// hand-written programs may loop up to an argument: no huge ints
+			for _, f := range funcs {
+				f.smallInts = true
+			}
+		}
 		pi := len(progs)
 		po := &progObs{K: "prog", I: pi, Src: src, ErrFunc: -1, Feat: g.counts}
 		for k, v := range g.counts {
@@ -566,10 +667,37 @@ func main() {
 		os.RemoveAll(dir)
 		os.MkdirAll(dir, 0o755)
 		var file bytes.Buffer
-		file.WriteString("package main\n\nimport (\n\t\"encoding/hex\"\n\t\"fmt\"\n\t\"os\"\n\t\"bufio\"\n\t\"strconv\"\n\t\"strings\"\n)\n\n")
+		file.WriteString("package main\n\nimport (\n\t\"encoding/hex\"\n\t\"fmt\"\n\t\"os\"\n\t\"bufio\"\n\t\"strconv\"\n\t\"strings\"\n\t\"time\"\n)\n\n")
 		file.WriteString("var _ = strings.HasPrefix\nvar _ = strconv.Itoa\nvar _ = fmt.Sprintf\nvar _ = hex.EncodeToString\n\n")
 		file.WriteString("var out = bufio.NewWriter(os.Stdout)\n\n")
-		file.WriteString("func run(p, c int, f func() string) {\n\tdefer func() {\n\t\tif r := recover(); r != nil {\n\t\t\tfmt.Fprintf(out, \"%d %d P:%s\\n\", p, c, strings.ReplaceAll(fmt.Sprint(r), \"\\n\", \" \"))\n\t\t}\n\t}()\n\ts := f()\n\tfmt.Fprintf(out, \"%d %d %s\\n\", p, c, s)\n}\n\n")
+		// every call runs under a watchdog: a call that does not return (a loop bounded by a huge argument) is
+		// reported as T like on the quasigo side; the spinning goroutine is abandoned, after 12 of them the run stops
+		file.WriteString(`var abandoned int
+
+func run(p, c int, f func() string) {
+	done := make(chan string, 1)
+	go func() {
+		defer func() {
+			if r := recover(); r != nil {
+				done <- "P:" + strings.ReplaceAll(fmt.Sprint(r), "\n", " ")
+			}
+		}()
+		done <- f()
+	}()
+	select {
+	case s := <-done:
+		fmt.Fprintf(out, "%d %d %s\n", p, c, s)
+	case <-time.After(3 * time.Second):
+		fmt.Fprintf(out, "%d %d T\n", p, c)
+		abandoned++
+		if abandoned >= 12 {
+			out.Flush()
+			os.Exit(0)
+		}
+	}
+}
+
+`)
 		file.Write(batch.Bytes())
 		file.WriteString("func main() {\n\tdefer out.Flush()\n")
 		for _, m := range mains {
